@@ -37,7 +37,7 @@ class Ob:
         self.object_bits = object_bits; self.expected_fail = expected_fail; self.kissat = kissat; self.spec_text = spec_text; self.includes = list(includes); self.copies = list(copies); self.stubs = stubs or {}; self.inline_vec = inline_vec; self.adaptive_unwind = adaptive_unwind; self.inits = inits or {}; self.prebuild_shape = prebuild_shape; self.unwind_start = unwind_start; self.quick_for = quick_for; self.preamble = preamble; self.mem_gb = mem_gb; self.circ_class = circ_class; self.preamble_after = preamble_after; self.py_check = py_check; self.prebuild_call = prebuild_call; self.enum = enum
 
 # ---------------------------------------------------------------------------------------------- AST cache
-TUS = {'kernel': 'tu/kernel.cc', 'tethex': 'tu/tethex.cc', 'ovmb': 'tu/ovmb.cc', 'vector': 'tu/vector.cc', 'props': 'tu/props.cc'}
+TUS = {'kernel': 'tu/kernel.cc', 'tethex': 'tu/tethex.cc', 'ovmb': 'tu/ovmb.cc', 'vector': 'tu/vector.cc', 'props': 'tu/props.cc', 'readerinst': 'tu/readerinst.cc'}
 _index_cache = {}
 
 def src_hash():
